@@ -32,7 +32,7 @@ def eqrow(a, b, nodes):
     return And(*[close(a[n], b[n]) for n in nodes])
 
 
-def h_rejection(ctx, bs, n, mode, K, region='main', nested=0, max_parallel=1, with_pool=False):
+def h_rejection(ctx, bs, n, mode, K, region='main', nested=0, max_parallel=1, with_pool=False, earlier=None):
     """region: 'main' (>= n finite admissible consumed draws assumed) | 'inf' (the complement: finding F1)."""
     w = World(ctx, bs, max_batches=K, nested_d=nested)
     kw = {}
@@ -54,6 +54,13 @@ def h_rejection(ctx, bs, n, mode, K, region='main', nested=0, max_parallel=1, wi
         rej = elfi.Rejection(w.model['d'], batch_size=bs, seed=w.seed, output_names=['s'], pool=pool,
                              max_parallel_batches=max_parallel)
         w.watch(rej)
+        if earlier:
+            # the same sampler object has already finished another run (its state must not leak into this one)
+            if earlier == 'n_sim':
+                rej.sample(1, bar=False, n_sim=bs)
+            elif earlier == 'threshold':
+                rej.sample(1, bar=False, threshold=ctx.xreal('earlier_threshold', specials=(INF,)))
+            w.consumed[:] = []
         sample = rej.sample(n, bar=False, **kw)
     cons = w.consumed
     rows = w.rows(cons, nodes)
@@ -128,9 +135,10 @@ def h_rejection(ctx, bs, n, mode, K, region='main', nested=0, max_parallel=1, wi
 def mk(name, **p):
     region = p.get('region', 'main')
     tiers = p.pop('tiers', ('quick', 'thorough'))
-    b = 'batch_size=%d n_samples=%d mode=%s <=%d batches%s%s' % (
+    b = 'batch_size=%d n_samples=%d mode=%s <=%d batches%s%s%s' % (
         p['bs'], p['n'], p['mode'], p['K'], ' nested distance' if p.get('nested') else '',
-        ' max_parallel=%d' % p['max_parallel'] if p.get('max_parallel') else '')
+        ' max_parallel=%d' % p['max_parallel'] if p.get('max_parallel') else '',
+        '; second run on a sampler object that finished a %s run before' % p['earlier'] if p.get('earlier') else '')
     return H(name, h_rejection, p, tiers=tiers, bounds=b,
              finding='C01/inf-tie-placeholder' if region == 'inf' else None,
              finding_claims=('is_a_consumed_draw', 'returned_more_often', 'all_strictly_better'))
@@ -153,6 +161,10 @@ HARNESSES = [
     mk('threshold_bs2_n2', bs=2, n=2, mode='threshold', K=2),
     mk('threshold_bs2_n2_K3', bs=2, n=2, mode='threshold', K=3, tiers=('thorough',)),
     mk('threshold_bs1_n2_par2', bs=1, n=2, mode='threshold', K=4, max_parallel=2, tiers=('thorough',)),
+    mk('threshold_bs2_n2_second_run', bs=2, n=2, mode='threshold', K=2, earlier='n_sim'),
+    mk('threshold_bs1_n1_second_run_after_threshold', bs=1, n=1, mode='threshold', K=3, earlier='threshold'),
+    mk('nsim_bs2_n2_second_run', bs=2, n=2, mode='n_sim', K=2, earlier='threshold', tiers=('thorough',)),
+    mk('quantile_bs2_n1_second_run', bs=2, n=1, mode='quantile', K=2, earlier='n_sim', tiers=('thorough',)),
     mk('nsim_bs2_n2_pool', bs=2, n=2, mode='n_sim', K=2, with_pool=True),
     mk('nsim_bs2_n2_nested', bs=2, n=2, mode='n_sim', K=2, nested=1),
     # region of the known finding: fewer than n finite admissible draws among the consumed ones
